@@ -1,6 +1,7 @@
 """registry of harness executables: name -> (variants, extra link flags)"""
 import vf
 HARNESSES = {
+    "lr_replay": (["plain", "asan"], None),
     "model_run": (["plain", "asan"], None),
     "replay_range": (["asan"], None),
 }
